@@ -411,11 +411,11 @@ namespace ratio
         assert(gr.phis.count(variable(p)) || gr.rhos.count(variable(p)));
 
         if (const auto at_phis_p = gr.phis.find(variable(p)); at_phis_p != gr.phis.cend())
-            switch (sat->value(at_phis_p->first))
-            {
-            case True: // some flaws have been activated..
-                for (const auto &f : at_phis_p->second)
+        {
+            for (const auto &f : at_phis_p->second)
+                switch (sat->value(f->phi)) // notice that the literal of a flaw can be a negated one..
                 {
+                case True: // the flaw has been activated..
                     assert(!flaws.count(f));
                     if (!root_level())
                         trail.back().new_flaws.insert(f);
@@ -425,20 +425,15 @@ namespace ratio
                     else if (!root_level())
                         trail.back().solved_flaws.insert(f); // this flaw has been accidentally solved..
                     gr.activated_flaw(*f);
-                }
-                if (root_level()) // since we are at root-level, we can perform some cleaning..
-                    gr.phis.erase(at_phis_p);
-                break;
-            case False: // some flaws have been negated..
-                for (const auto &f : at_phis_p->second)
-                {
+                    break;
+                case False: // the flaw has been negated..
                     assert(!flaws.count(f));
                     gr.negated_flaw(*f);
+                    break;
                 }
-                if (root_level()) // since we are at root-level, we can perform some cleaning..
-                    gr.phis.erase(at_phis_p);
-                break;
-            }
+            if (root_level()) // since we are at root-level, we can perform some cleaning..
+                gr.phis.erase(at_phis_p);
+        }
 
         if (const auto at_rhos_p = gr.rhos.find(variable(p)); at_rhos_p != gr.rhos.cend())
         {
